@@ -8,7 +8,8 @@ RULES = {
            "cycles of int64) as base with a panel of 72 out-of-range overlays per field; (b) random tuples from a mixture (small, "
            "+-1e5, full int64, within 1000 of either limit, random bit-length, months = multiples of 12 at the year limits, huge "
            "day/hour/minute/second counts compensated by the year); (c) all 36 alignment conversions and operator<<. Each tuple is "
-           "vetted in 128-bit against the statement's representability bound before the call and then fed to all six civil types. "
+           "vetted in 128-bit against the statement's representability bound before the call and then fed to all six civil types, "
+           "also through the 5-, 4-, 3-, 2- and 1-argument constructor forms wherever the omitted fields have their default values. "
            "Non-trivial = distinct tuple with >= 2 fields out of range (hash set per chunk; chunks are disjoint by construction or "
            "64-bit random).",
     "C05": "per alignment: (a, n) and (a, b) pairs from the C04 mixture plus n = INT64_MIN/MAX, a - INT64_MIN, steps landing on the "
